@@ -373,6 +373,17 @@ func safeErrorText(err error) (text, pan string) {
 // checkPositions is the full C10 oracle for one source. compiled reports
 // whether Compile was consulted for its error text.
 func checkPositions(src string) (msg string, parsed bool) {
+	defer func() {
+		if r := recover(); r != nil {
+			text := fmt.Sprint(r)
+			if strings.Contains(text, "out of range") {
+				// a position beyond the source made slicing panic
+				msg, parsed = "a recorded position lies outside the source: scanning/parsing panics with "+text, false
+				return
+			}
+			panic(r)
+		}
+	}()
 	stmts, err := parser.Parse(src)
 	if err != nil {
 		return checkSpansFailure(src, stmts, err), false
